@@ -251,12 +251,16 @@ PROPS['C19'] = {
     'level': 'other',
     'verus_units': ['bloom', 'cuckoo', 'quotient', 'quotient_exact', 'cms', 'hll', 'reservoir', 'lossy', 'cmsheap'],
     'kani': {'quick': TD19 + CMS_EMPTY + CMS_MERGE[:1] + HLL_MERGE + BLOOM_K[1:] + [('reservoirsampling.rs', 'c19_reservoir_clone_mid_fillup', 'bounded(k=4, one concrete history): clone during fill-up')] + [('filters__quotientfilter.rs', 'c19_qf_clear_is_fresh', 'bounded(4 slots, 16-bit remainders; arbitrary array contents)'),
-                                                                  ('filters__cuckoofilter.rs', 'c19_cuckoo_clear_is_fresh', 'bounded(2x2 table)')],
-             'thorough': []},
-    'explanation': 'clear() contracts: every field that later behaviour reads equals the fresh value (hidden counters included) -- Verus for Bloom, Cuckoo, Quotient, CMS, HLL, Reservoir, LossyCounter, CMSHeap (unbounded: eight of nine structures); Kani for TDigest (n_samples!) (bounded, f64). is_empty exactness likewise. Equal states + deterministic code => equal continuations.',
+                                                                  ('filters__cuckoofilter.rs', 'c19_cuckoo_clear_is_fresh', 'bounded(2x2 table)'),
+                                                                  ('filters__bloomfilter.rs', 'c19_bloom_clone_independent', 'bounded(m=7, arbitrary bits): clone independence'),
+                                                                  ('countminsketch.rs', 'c19_cms_clone_independent', 'bounded(2x2 u8 table, arbitrary contents): clone independence'),
+                                                                  ('hyperloglog__mod.rs', 'c19_hll_clone_independent', 'bounded(b=4, arbitrary registers): clone independence'),
+                                                                  ('tdigest.rs', 'c19_td_clone_independent', 'bounded(one concrete insert on either side): clone independence through the RefCell')],
+             'thorough': [('filters__quotientfilter.rs', 'c19_qf_clone_independent', 'bounded(2 slots, every canonical state): clone independence')]},
+    'explanation': 'clear() contracts: every field that later behaviour reads equals the fresh value (hidden counters included) -- Verus for Bloom, Cuckoo, Quotient, CMS, HLL, Reservoir, LossyCounter, CMSHeap (unbounded: eight of nine structures); Kani for TDigest (n_samples!) (bounded, f64). is_empty exactness likewise. Equal states + deterministic code => equal continuations. clone(): bounded Kani harnesses (clone, mutate one side, the other keeps its state) for Bloom, CMS, HLL, TDigest, Reservoir (quick) and QuotientFilter (thorough).',
     'trusted_base': COMMON_TRUST + [INTVEC_TRUST, FBS_TRUST],
     'assumptions': ['clone(): all nine types are derive(Clone) over owned data (Rc<T> in CMSHeap is shared but T is never mutated); std Clone contracts assumed, not verified'],
-    'not_decided': ['clone() independence is not under contract'],
+    'not_decided': ['clone() independence beyond the bounded harnesses (derive(Clone) has no source text to put under a Verus contract); not exercised for Cuckoo, LossyCounter, CMSHeap'],
 }
 
 PROPS['C20'] = {
